@@ -305,6 +305,27 @@ func (e *Env) lookupLocal(name string) (tval, bool) {
 				}
 			}
 		}
+		// a variable (possibly a parameter) re-assigned on several paths before the loop: the join's phi
+		var bestPhi *ssa.Phi
+		for _, b := range fn.Blocks {
+			if b == e.loop.header || !b.Dominates(e.loop.header) {
+				continue
+			}
+			for _, in := range b.Instrs {
+				phi, ok := in.(*ssa.Phi)
+				if !ok {
+					break
+				}
+				if phi.Comment == name {
+					if _, ok := fr.regs[phi]; ok && (bestPhi == nil || b.Index > bestPhi.Block().Index) {
+						bestPhi = phi
+					}
+				}
+			}
+		}
+		if bestPhi != nil {
+			return tval{T: bestPhi.Type(), C: fr.regs[bestPhi]}, true
+		}
 	}
 	for i, p := range fn.Params {
 		if p.Name() == name {
